@@ -195,7 +195,9 @@ func (c *arityClient) PreCall(e *Engine, st *State, call *ast.CallExpr, _ *types
 		got += " minus {" + strings.Join(ne, ",") + "}"
 	}
 	if !documented {
-		e.Site("C13/arity", key, call, lo > 0 || hi >= 0, "built-in not in the documented table; argument count is constrained to "+got+" before anything is written")
+		// the property enumerates the built-ins whose argument count is documented; another one is free to take
+		// what it likes
+		e.Site("C13/arity", key, call, true, "built-in not among those the property lists; argument count is constrained to "+got+" before anything is written (nothing demanded)")
 		return st.WithExt("emitted", "1")
 	}
 	ok := lo == want[0] && hi == want[1] && len(ne) == 0
@@ -702,6 +704,29 @@ type gatesClient struct {
 	aliases  []string
 	identT   types.Type
 	sites    int
+}
+
+// Inline: predicates, and the helpers the expression writer was split into (functions that did not exist on the
+// reviewed tree and do not lead back into the writer).
+func (c *gatesClient) Inline(e *Engine, call *ast.CallExpr, callee *types.Func, decl *ast.FuncDecl) bool {
+	if c.InlinePredicates.Inline(e, call, callee, decl) {
+		return true
+	}
+	if callee.Pkg() == nil || callee.Pkg().Path() != PathPQL || c.p.recordedFunc(callee) || c.p.reachesWriter()[callee] {
+		return false
+	}
+	// only helpers that are handed the expression context (not, say, a loop that strips parentheses)
+	takesCtx := false
+	sig := callee.Type().(*types.Signature)
+	for i := 0; i < sig.Params().Len(); i++ {
+		if TypeStr(sig.Params().At(i).Type()) == "*pql.exprContext" {
+			takesCtx = true
+		}
+	}
+	if r := sig.Recv(); r != nil && TypeStr(r.Type()) == "*pql.exprContext" {
+		takesCtx = true
+	}
+	return takesCtx && smallBody(decl)
 }
 
 func (c *gatesClient) PreCall(e *Engine, st *State, call *ast.CallExpr, callee *types.Func) *State {
